@@ -5,13 +5,13 @@ import "time"
 func init() {
 	registry = append(registry, property{id: "C14", parts: []part{
 		{name: "linearizable", pkg: "./c14", run: "^TestLinearizable$",
-			shards: [2]int{8, 16}, checks: [2]int{250, 5000}, timeout: [2]time.Duration{12 * min, 30 * min},
+			shards: [2]int{8, 16}, checks: [2]int{250, 3500}, timeout: [2]time.Duration{12 * min, 60 * min},
 			env: [2][]string{{"VERIF_ROUNDS=4"}, {"VERIF_ROUNDS=8"}}},
 		{name: "contend", pkg: "./c14", run: "^TestContention$",
-			shards: [2]int{4, 8}, checks: [2]int{60, 1500}, timeout: [2]time.Duration{12 * min, 30 * min},
+			shards: [2]int{4, 8}, checks: [2]int{60, 800}, timeout: [2]time.Duration{12 * min, 60 * min},
 			env: [2][]string{{"VERIF_CONTEND_ROUNDS=300"}, {"VERIF_CONTEND_ROUNDS=1000"}}},
 		{name: "race", pkg: "./c14", run: "^TestRace$", bins: []string{"fschild-race"},
-			shards: [2]int{4, 8}, checks: [2]int{80, 400}, timeout: [2]time.Duration{12 * min, 30 * min},
+			shards: [2]int{4, 8}, checks: [2]int{80, 400}, timeout: [2]time.Duration{12 * min, 60 * min},
 			env: [2][]string{{"VERIF_RACE_ROUNDS=30"}, {"VERIF_RACE_ROUNDS=100"}}},
 	}})
 }
